@@ -48,7 +48,7 @@ func checkC09(t *testing.T, sc *Scenario, rec *Recorder) []Diff {
 		return nil
 	}
 	// what did the capture handle actually hand to the tool?
-	rawRead, validRead, permitted, onTuple, noBlockOnTuple := 0, 0, false, false, false
+	rawRead, validRead, permitted, onTuple, noBlockOnTuple, synReplaced := 0, 0, false, false, false, false
 	genuine := map[string]bool{}
 	for _, p := range o.Wire.all {
 		if p.tag.Class == "genuine" || p.tag.Class == "handshake" {
@@ -90,6 +90,9 @@ func checkC09(t *testing.T, sc *Scenario, rec *Recorder) []Diff {
 			if ip, err := lenientIP(e.Data); err == nil && ip.Proto == ProtoTCP && ip.Src.String() == target && ip.Dst.String() == local && len(ip.Payload) >= 20 {
 				if binary.BigEndian.Uint16(ip.Payload[0:]) == tport && binary.BigEndian.Uint16(ip.Payload[2:]) == lport {
 					onTuple = true
+					if ip.Payload[13]&TCPSyn != 0 && !hasCleanSackCapability(ip.Payload) {
+						synReplaced = true
+					}
 					if !hasCleanSackCapability(ip.Payload) {
 						noBlockOnTuple = true
 					}
@@ -108,6 +111,11 @@ func checkC09(t *testing.T, sc *Scenario, rec *Recorder) []Diff {
 	permitted = onTuple && noBlockOnTuple && o.Err != nil && errors.As(o.Err, &nse)
 	nt := rawRead > 0
 	var ds []Diff
+	// probes that do not belong to the connection's own handshake (sequence numbers, timestamps): fine when a
+	// well-formed hostile SYN-ACK on the tuple was read (it may replace the handshake), a changed run otherwise
+	if o.World != nil && len(o.World.Problems) > 0 && !synReplaced {
+		ds = append(ds, Diff{"C09", "handshake-changed", fmt.Sprintf("malformed packets changed what the run took from its handshake: %s", o.World.Problems[0])})
+	}
 	if o.Err != nil || o.Run == nil {
 		switch {
 		case permitted:
@@ -329,23 +337,31 @@ func genTCPOptions(t *rapid.T, label string) []byte {
 
 // TestC09TCPOptions enumerates option kinds x declared lengths x positions on the SACK handshake SYN-ACK
 // and on the SACK duplicate ACK.
-// hasCleanSackCapability: the segment is not a SYN, its TCP header and option list decode without error and a
-// SACK option with at least one complete 8-byte block is present. (A hostile SYN-ACK on the connection's
-// tuple is indistinguishable from the target's own and may replace the handshake altogether - other
-// sequence numbers, no SACK-permitted - so whatever "not supported" follows from it is accepted.)
+// hasCleanSackCapability says that a segment on the probed connection's tuple does NOT explain a "SACK not
+// supported" outcome. What does explain it: a well-formed SYN-ACK (indistinguishable from the target's own, it
+// may replace the handshake altogether: other sequence numbers, no SACK-permitted), or a well-formed other
+// segment without a complete SACK block (the target acknowledging without blocks). What does not: a segment
+// whose option list does not decode (the tool must skip it as a bad packet), a SYN-ACK whose timestamp option
+// is too short to hold both values (malformed: skipped, the run waits for a well-formed one), a segment that carries a
+// complete SACK block.
 func hasCleanSackCapability(seg []byte) bool {
 	if len(seg) < 20 {
-		return false
+		return true
 	}
 	doff := int(seg[12]>>4) * 4
 	if doff < 20 || doff > len(seg) {
-		return false
+		return true
 	}
 	opts, err := ParseTCPOptions(seg[20:doff])
 	if err != nil {
-		return false
+		return true
 	}
 	if seg[13]&TCPSyn != 0 {
+		for _, o := range opts {
+			if o.Kind == 8 && len(o.Data) < 8 {
+				return true
+			}
+		}
 		return false
 	}
 	for _, o := range opts {
